@@ -17,7 +17,5 @@ func zzNoCrash(n int, fn func(d *decode.D) any) {
 	vrt.Assert(root != nil || err != nil, "decode returns a tree or an error")
 }
 
-func VerifNoCrash() { zzNoCrash(3, decodeASN1BER) }
+func VerifNoCrash() { zzNoCrash(4, decodeASN1BER) }
 
-// VerifNoCrashLong: thorough tier.
-func VerifNoCrashLong() { zzNoCrash(4, decodeASN1BER) }
